@@ -1,25 +1,34 @@
 """C07 — no input can crash the host; errors are returned and leave the engine usable.
 
 translate  : translate/c07_arms.py regenerates lean/SteelVerif/C07/GenArms.lean from /repo (match arms of the numeric
-             primitives per pair of value kinds; every potential panic site of the primitives reachable from a
-             registered function: `unwrap()`, `expect(`, `unreachable!`, `todo!`, `panic!`, `unimplemented!`, `[i]`, `as usize`).
+             primitives per pair of value kinds; every potential panic site of primitives/*.rs and steel_vm/primitives.rs:
+             `unwrap()`, `expect(`, `unreachable!`, `todo!`, `panic!`, `assert!`, unchecked accessors, `[i]`, `as usize`).
 prove      : lake build SteelVerif.C07.Props + axiom audit:
                frontend_total / frontend_spans          (the C12 theorems about the reader, restated as C07 obligations)
-               arms_total, panic_sites_classified       (by `decide` over the regenerated tables)
-               failed_run_leaves_clean, failed_build_is_noop, handler_run_resumes_clean   (model of SteelThread::execute's
-               unwind loop, raw_program_to_executable's roll-back, compile_raw_program's module snapshot)
-correspond : the REAL engine, in child processes (an abort / stack overflow / hang loses one input):
-   (i)  texts   : every text is evaluated on a long-lived engine inside catch_unwind; after EVERY error the stack/frame
+               arms_total, arms_total_unary, panic_sites_classified, reachable_sites_named   (decided over the tables)
+               failed_run_leaves_clean_partial, handler_run_resumes_clean, run_never_panics, failed_forms_keep_completed,
+               history_stays_clean, failed_build_is_noop_partial  (model of SteelThread::execute's unwind loop,
+               run_executable, compile_raw_program's module snapshot, raw_program_to_executable's roll-back); the full
+               statements FailedRunLeavesClean / FailedBuildIsNoop are refuted by witnesses that are replayed on the engine.
+correspond : (m) the recovery model against the real engine on generated handler / call/cc / failing programs
+                 (outcome class, anything left on the frame stack / operand stack after the error);
+             (s) every panic observed at an extracted site must be judged `reachable` in LemmasSites.lean.
+explore    : the REAL engine, in child processes (an abort / stack overflow / hang loses one input), oracle = the property:
+   (i)  texts   : every text is evaluated on a long-lived engine inside catch_unwind — at the top level and, for a second
+                  stream, as a module ((require "<file>"), what `steel file.scm` does); after EVERY error the stack/frame
                   depth is read with (#%verif-stack-depth) and a fixed probe program (defines, closures, a loop, handlers,
                   a struct, a hash map, call/cc, a definition made when the engine was created) runs on the same engine.
+                  Failures are re-run alone on a fresh engine; those that need earlier evaluations are re-run with their
+                  predecessors and reported as a multi-evaluation replay.  Directed histories carry expectations.
    (ii) builtins: every procedure registered in the engine's module tables (minus DENY below) is applied to tuples from
                   a pool of ~80 values of every kind and boundary magnitude: arities 0..2 exhaustively, arity 3
-                  pairwise (quick) / exhaustively (thorough).
-oracle     : the property itself.  A panic reaching catch_unwind, an abort, a signal, a native stack overflow, an
-             evaluation that cannot be interrupted, a probe result other than the fixed expected one, or frames / operands
-             left on the stacks after an error is a failure.  Failures are grouped into classes (panic site | abort kind |
-             overflow phase | probe difference); a class listed in KNOWN_FINDINGS.txt (or, until the coordinator has
-             listed it, described by a findings/C07-K07*.txt file) prints KNOWN-FINDING, any other class is a VIOLATION.
+                  pairwise (quick, and procedures of unknown arity) / exhaustively (thorough); the applying loop is a
+                  top-level procedure or a procedure of a required module.
+oracle     : a panic reaching catch_unwind, an abort, a signal, a native stack overflow, an evaluation that cannot be
+             interrupted, a probe result other than the fixed expected one (unless the history rebinds a standard name), or
+             frames / operands left on the stacks after an error.  Failures are grouped into classes (FINDING_CLASSES: one
+             class per root cause, from panic site | abort kind | overflow phase | hang site | history); a class listed in
+             KNOWN_FINDINGS.txt prints KNOWN-FINDING, any other class is a VIOLATION.
 """
 import glob
 import json
@@ -40,7 +49,7 @@ META = {
     "ready": False,
     "category": "proof",
     "technique": "Lean 4: totality/range theorems of the reader (from C12), match-arm coverage and panic-site classification decided over tables regenerated from the Rust sources, and a model of the VM's error unwinding / build roll-back with clean-state theorems; plus an exploration of the real engine in crash-isolated child processes (texts: random, grammar-derived, mutated suite scripts; built-ins: every registered procedure on a pool of boundary values) whose oracle is the property itself",
-    "level_text": "Proved (SteelVerif/C07/Props.lean): frontend_total/frontend_spans (reader total, spans in range; re-export of C12), arms_total (every pair of numeric kinds reaches an arm in each binary numeric primitive), panic_sites_classified (every extracted potential panic site of the primitives is in the reviewed table), failed_run_leaves_clean / handler_run_resumes_clean / failed_build_is_noop for the model of execute's unwind loop and the build roll-back. The property as a whole is partial: panic-freedom of the Rust code is explored, not proved.",
+    "level_text": "Proved (SteelVerif/C07/Props.lean): frontend_total/frontend_spans (reader total, spans in range; re-export of C12); arms_total/arms_total_unary (every pair / every numeric kind reaches a non-panicking arm in each numeric primitive, over tables regenerated from numbers.rs and rvals.rs); panic_sites_classified/reachable_sites_named (each of the ~300 extracted potential panic sites of the primitives is in the hand-reviewed table, reachable ones name their finding); for the model of SteelThread::execute: failed_run_leaves_clean_partial, handler_run_resumes_clean, run_never_panics, failed_forms_keep_completed, history_stays_clean (any fuel, any program, any history of failing and succeeding evaluations: both stacks empty afterwards, executed definitions kept, the pop_count == 0 early return is dead code), failed_build_is_noop_partial (parametric in a symbol map whose roll_back restores). The full statements are kept and refuted by witnesses replayed on the engine (handler that is not a closure: K07a; define-syntax of a failed program: K07z). The model is tied to the engine by generated programs on every run. The property as a whole is partial: panic-freedom of 100k lines of Rust is explored (oracle = the property), not proved; every open failure class is a KNOWN_FINDINGS entry.",
     "level_note": "Trusted: Lean kernel, translators, harness, orchestrator. Not modelled: everything outside the reader, the numeric dispatch tables and the recovery machine; native stack size; allocation failure; the JIT.",
 }
 
